@@ -420,7 +420,7 @@ Definition stageA (p : path) (t : ty) (nullable : bool) (col_ts : bool) (r : raw
                                      | TBoolean, [] => Rej E6
                                      | _, _ => stageA_str p t (match p with PDfStr => col_ts | _ => false end) s
                                      end
-                         | _ => Rej E6
+                         | _ => stageA_native t r        (* typed Parquet column (BIGINT/DOUBLE/FLOAT/BOOLEAN/TIMESTAMP): same CASTs as a native frame *)
                          end
   | PDfNat => match r with
               | RStr s => match t, s with TBoolean, [] => Rej E6 | _, _ => stageA_str PDfStr t col_ts s end
